@@ -113,6 +113,7 @@ enum Effect {
 #[derive(Clone, Debug)]
 enum Opnd {
     Outer(usize),
+    Abs(usize),
     Loc(usize),
 }
 
@@ -182,6 +183,9 @@ fn parse_opnd(s: &str) -> Option<Opnd> {
     }
     if let Some(r) = s.strip_prefix('n') {
         return r.parse().ok().map(Opnd::Outer);
+    }
+    if let Some(r) = s.strip_prefix('#') {
+        return r.parse().ok().map(Opnd::Abs);
     }
     None
 }
@@ -296,6 +300,7 @@ pub struct Ctx {
     defs: RefCell<Defs>,
     handles: RefCell<HashMap<usize, Incr<V>>>,
     pair_handles: RefCell<HashMap<usize, Incr<(V, V)>>>,
+    top: RefCell<Vec<usize>>,
     vars: RefCell<Vec<Option<Var<V>>>>,
     var_handles: RefCell<Vec<usize>>,
     observers: RefCell<Vec<Vec<Observer<V>>>>,
@@ -409,11 +414,20 @@ fn do_subscribe(ctx: &C, o: usize, h: usize) -> Result<usize, incremental::Obser
     }
 }
 
-fn resolve(ctx: &C, loc: &[usize], o: &Opnd) -> Incr<V> {
+fn resolve_ix(ctx: &C, loc: &[usize], o: &Opnd) -> usize {
     match o {
-        Opnd::Outer(n) => handle(ctx, *n),
-        Opnd::Loc(j) => handle(ctx, loc[*j]),
+        Opnd::Outer(k) => *ctx
+            .top
+            .borrow()
+            .get(*k)
+            .unwrap_or_else(|| panic!("verif-harness: no top-level node n{}", k)),
+        Opnd::Abs(n) => *n,
+        Opnd::Loc(j) => loc[*j],
     }
+}
+
+fn resolve(ctx: &C, loc: &[usize], o: &Opnd) -> Incr<V> {
+    handle(ctx, resolve_ix(ctx, loc, o))
 }
 
 fn apply_fn(fd: &FnDef, args: &[&V]) -> V {
@@ -447,10 +461,7 @@ fn elab_instr(ctx: &C, loc: &[usize], lhs: &V, i: &Instr) -> Option<usize> {
             let fd = ctx.defs.borrow().fns.get(f).cloned().unwrap_or(FnDef { m: 7, ..Default::default() });
             // a single argument that is a zip node (value type (V, V))
             if let [a] = args.as_slice() {
-                let an = match a {
-                    Opnd::Outer(n) => *n,
-                    Opnd::Loc(j) => loc[*j],
-                };
+                let an = resolve_ix(ctx, loc, a);
                 let pair = ctx.pair_handles.borrow().get(&an).cloned();
                 if let Some(pair) = pair {
                     let me = Rc::new(Cell::new(usize::MAX));
@@ -659,8 +670,7 @@ fn panic_class(msg: &str) -> &'static str {
 fn action(ctx: &C, toks: &[&str]) -> String {
     match toks {
         ["observe", n] => {
-            let n = idx("n", n).unwrap();
-            let ob = handle(ctx, n).observe();
+            let ob = resolve(ctx, &[], &parse_opnd(n).unwrap()).observe();
             let mut obs = ctx.observers.borrow_mut();
             obs.push(vec![ob]);
             format!("ok o{}", obs.len() - 1)
@@ -765,7 +775,10 @@ fn action(ctx: &C, toks: &[&str]) -> String {
         ["stats"] => "ok".into(),
         other => match parse_instr(other) {
             Some(i) => match elab_instr(ctx, &[], &V::Unit, &i) {
-                Some(n) => format!("ok n{}", n),
+                Some(n) => {
+                    ctx.top.borrow_mut().push(n);
+                    format!("ok #{}", n)
+                }
                 None => "ok".into(),
             },
             None => format!("bad-op {}", other.join(" ")),
@@ -792,7 +805,7 @@ pub fn run() {
     let mut lines: Vec<&str> = vec![];
     for l in text.lines() {
         let l = l.trim();
-        if l.is_empty() || l.starts_with('#') {
+        if l.is_empty() || l.starts_with("# ") || l == "#" {
             continue;
         }
         let t: Vec<&str> = l.split_whitespace().collect();
@@ -809,6 +822,7 @@ pub fn run() {
         defs: RefCell::new(Defs::default()),
         handles: RefCell::new(HashMap::new()),
         pair_handles: RefCell::new(HashMap::new()),
+        top: RefCell::new(vec![]),
         vars: RefCell::new(vec![]),
         var_handles: RefCell::new(vec![]),
         observers: RefCell::new(vec![]),
